@@ -96,4 +96,22 @@ theorem runPool_stays_unverified (routes : List Route) (ht : TableGuarded routes
       | inl h => subst h; exact absurd hxj hij
       | inr h => exact ih.2 x h hxj
 
+/-- At every point of an interleaved history: a request that is not for an exempt route, on a
+    connection that is unverified AT THAT POINT (whatever it did before: pair-setup attempts, a
+    failed pair-verify, verify step 1), is a refused no-op on the whole pool. -/
+def PoolAlways (routes : List Route) (P : Params σ) (lower : σ → Nat → Bool) :
+    Pool σ → List (Nat × Option Req × Bytes) → Prop
+  | _, [] => True
+  | p, (i, rq, b) :: rest =>
+    (p.verified i = false → hitsExempt routes P (rq, b) = false →
+      (stepConn routes P lower p i rq b).1 = p ∧ (stepConn routes P lower p i rq b).2.refusal = true) ∧
+    PoolAlways routes P lower (stepConn routes P lower p i rq b).1 rest
+
+theorem poolAlways (routes : List Route) (ht : TableGuarded routes) (P : Params σ) (lower : σ → Nat → Bool) :
+    ∀ (steps : List (Nat × Option Req × Bytes)) (p : Pool σ), PoolAlways routes P lower p steps
+  | [], _ => trivial
+  | (i, rq, b) :: rest, p =>
+    ⟨fun hv hx => stepConn_unverified routes ht P lower p i rq b hv hx,
+     poolAlways routes ht P lower rest _⟩
+
 end Hap.Http
